@@ -174,6 +174,16 @@ EXAMPLES = {
                                                     L_gamma(upto=1.0, d=st.integers(2, 3), t=st.integers(1, 4)), "tight"),
     "randomized_coordinate_descent_smooth_strongly_convex": (ST, "wc_randomized_coordinate_descent_smooth_strongly_convex",
                                                              L_mu_gamma(upto=1.0, d=st.integers(2, 3)), "tight"),
+    "douglas_rachford_splitting_operators": (MI, "wc_douglas_rachford_splitting",
+                                             T(L=st.sampled_from([1, 2, 3, 0.5]), mu=st.sampled_from([0.1, 0.5, 1.0]),
+                                               alpha=st.sampled_from([1.3, 1.0, 0.5]), theta=st.sampled_from([0.9, 1.0, 1.5, 0.5])), "tight"),
+    "gradient_descent_qg_convex": (UC, "wc_gradient_descent_qg_convex", L_gamma(upto=1.0, n=st.integers(1, 4)), "tight"),
+    "gradient_descent_silver_stepsize_strongly_convex": (UC, "wc_gradient_descent_silver_stepsize_strongly_convex",
+                                                         L_mu(n=st.integers(1, 4)), "tight"),
+    "inexact_gradient_exact_line_search": (UC, "wc_inexact_gradient_exact_line_search",
+                                           L_mu(epsilon=st.sampled_from([0.1, 0.3, 0.5]), n=st.integers(1, 2)), "tight"),
+    "no_lips_1": (NC, "wc_no_lips_1", L_gamma(upto=0.9, n=st.integers(1, 4)), "tight"),
+    "no_lips_2": (NC, "wc_no_lips_2", L_gamma(upto=0.9, n=st.integers(1, 4)), "tight"),
     "polyak_steps_in_distance_to_optimum": (AD, "wc_polyak_steps_in_distance_to_optimum", polyak("1/mu"), "abs"),
     "polyak_steps_in_function_value": (AD, "wc_polyak_steps_in_function_value", polyak("fv"), "abs"),
     "gradient_flow_convex": (CT, "wc_gradient_flow_convex", T(t=st.sampled_from([0.5, 1, 3.4, 10])), "abs"),
